@@ -5,6 +5,7 @@ CONSTANTS
   Variants <- VariantsAll
   Redirects = {FALSE, TRUE}
   PullGated = TRUE
+  TLSKinds = {"none", "ca"}
 INVARIANTS Inv_CredsModuloKnown Inv_WrittenImpliesOrigin
 CONSTRAINT Export
 CHECK_DEADLOCK FALSE
